@@ -36,7 +36,8 @@ HEADER = "HardDoubleBass"
 def _check_track(ctx: Ctx, res, tempo, items, rc, exhaustive_hint=False, fmt=0):
     exp = expected_notes(res, items)
     lines = [S.track_line(it) for it in items]
-    chart, tr = T.parse_track(ctx, res, tempo, lines, HEADER, rc, fmt=fmt)
+    header = S.HEADER_LIST[(len(lines) * 11 + res) % 40]
+    chart, tr = T.parse_track(ctx, res, tempo, lines, header, rc, fmt=fmt)
     if tr is None:
         return None
     if not T.compare_notes(ctx, tr, exp, rc, {"ticks", "lanes", "sustain"}):
